@@ -238,13 +238,14 @@ def train(est, data, X, y, rs, stats=None, between=None):
     if est == "gmm_explicit":
         g = gen.mk_gmm(data["w"], data["m"], data["v"], max_fitting_steps=3, convergence_threshold=None, update_variances=True, update_weights=True).fit(X)
         return [g.weights, g.means, g.variances]
-    if est in ("isv", "isv_dask", "jfa"):
-        cls = JFAMachine if est == "jfa" else ISVMachine
-        mach = cls(1, 1, ubm=ubm, em_iterations=2, random_state=rs) if est == "jfa" else cls(1, ubm=ubm, em_iterations=2, random_state=rs)
+    if est in ("isv", "isv_dask", "jfa", "jfa_dask"):
+        jfa = est.startswith("jfa")
+        cls = JFAMachine if jfa else ISVMachine
+        mach = cls(1, 1, ubm=ubm, em_iterations=2, random_state=rs) if jfa else cls(1, ubm=ubm, em_iterations=2, random_state=rs)
         mach.create_UVD()
-        Xin = da.from_array(X, chunks=(8, X.shape[1])) if est == "isv_dask" else X
+        Xin = da.from_array(X, chunks=(8, X.shape[1])) if est.endswith("_dask") else X
         mach.fit_using_array(Xin, y)
-        return [mach.U, mach.D] + ([mach.V] if est == "jfa" else [])
+        return [mach.U, mach.D] + ([mach.V] if jfa else [])
     if est == "wccn":
         return [WCCN().fit(X, [int(v) for v in y]).weights]
     raise ValueError(est)
@@ -267,7 +268,7 @@ def oracle(est, data, seed):
         sig = KNOWN_SIG if est == "kmeans_seeded" else f"depends-on-sample-order:{est}"
         return {"sig": sig, "what": f"{est}: training on a permutation of the rows gives a different model", "perm": perm}
     # class renaming by a permutation of the ids
-    if est in ("isv", "isv_dask", "jfa", "wccn") + LAZY:
+    if est in ("isv", "isv_dask", "jfa", "jfa_dask", "wccn") + LAZY:
         ren = r.permutation(3)
         q = core.impl(lambda: train(est, data, X, ren[y], 3))
         if isinstance(q, core.ImplError) or not all(core.close(np.asarray(a, float), np.asarray(b, float), 1e-8, 1e-9) for a, b in zip(base, q)):
@@ -288,8 +289,8 @@ def oracle(est, data, seed):
 def search(ctx):
     fails, seen = [], set()
     data = datasets(ctx.seed + 1)
-    ests = ["kmeans_explicit", "kmeans_seeded", "gmm_explicit", "isv", "isv_dask", "jfa", "wccn", "isv_lazy", "jfa_lazy", "kmeans_reuse", "gmm_shared_trainer"]
-    for i in range(ctx.budget(22, 220)):
+    ests = ["kmeans_explicit", "kmeans_seeded", "gmm_explicit", "isv", "isv_dask", "jfa", "jfa_dask", "wccn", "isv_lazy", "jfa_lazy", "kmeans_reuse", "gmm_shared_trainer"]
+    for i in range(ctx.budget(24, 240)):
         est = ests[i % len(ests)]
         ctx.count("search:" + est)
         ctx.case(["s", est, i], nontrivial=True)
